@@ -366,3 +366,4 @@ def run(ctx) -> None:
     r_pickle(ctx)
     identity_repr(ctx, tenv)
     cache_census(ctx)
+    shared.argname_scope(ctx, ('forml.io.dsl._struct',), floor=2)
